@@ -116,8 +116,9 @@ def run(ctx):
     ctx.rule("R5.validate-first", "key_path dominates every filesystem call of put/put_overwrite/get/delete, fs calls only on its Ok arm; key_path/validate_key reject non-plain segments", floor=6)
     ctx.rule("R7.segmentation-agreement", "the key validator and the path builder (and the lister that turns paths back into keys) cut a key into segments with the same separator pattern: what is validated is what is joined onto the root", floor=3)
     ctx.rule("R8.write-errors-propagate", "the result of every step of the atomic write (create, write_all, flush, the inner block, rename) reaches `?` or the function's own return value: a failed step can never be followed by a successful put", floor=7)
-    ctx.rule("R6.codec-pairing", "compress exactly once on each writer's success path; decompress exactly once on get's success path", floor=3)
+    ctx.rule("R6.codec-pairing", "compress exactly once on each writer's success path; decompress exactly once on get's success path; the reused per-thread codec state is reset unconditionally before every use", floor=5)
     segmentation_rule(ctx, prog)
+    codec_state_rule(ctx, prog)
 
     local = [b for b in prog.bodies if b.key.startswith("cbh_storage::local::") or "cbh_storage::local::LocalStorage as" in b.key]
     for b in local:
@@ -618,6 +619,27 @@ def run(ctx):
             ok = ok and okr
             det += f"; decompress input is the file content read: {okr}"
         ctx.ob("R6.codec-pairing", m, ok, b.loc(), det)
+
+
+def codec_state_rule(ctx, prog):
+    """The codec keeps one Compress / Decompress per thread and reuses it for every object: each use must start from a reset
+    made unconditionally (a state left behind by the previous object - e.g. end-of-stream after an empty one - poisons the next)."""
+    for fn, reset, work in (("codec::run_deflate", "reset", "compress"), ("codec::run_inflate", "reset", "decompress")):
+        b = prog.one(fn)
+        if b is None:
+            ctx.missing("R6.codec-pairing", f"cbh_codec::{fn}")
+            continue
+        ctx.fn(b)
+        rs = [(bb, t) for bb, t in b.calls() if t["callee"].get("method") == reset and "flate2" in callee_key(t["callee"]) and not b.blocks[bb].cleanup]
+        ws = [(bb, t) for bb, t in b.calls() if t["callee"].get("method") in (work, work + "_vec") and "flate2" in callee_key(t["callee"])]
+        dom = b.dominators(unwind=False)
+        pc = path_count(b, [bb for bb, _ in rs])
+        uncond = bool(rs) and all(not [g for g in switch_guards(b, bb)] for bb, _ in rs)
+        before = bool(rs) and bool(ws) and all(any(rb in dom[wb] for rb, _ in rs) for wb, _ in ws)
+        same = bool(rs) and bool(ws) and all(Slice(b, through_calls=False).run(t["args"][0])["args"] == {1} for _bb, t in rs + ws)
+        ok = pc == (1, 1) and uncond and before and same
+        ctx.ob("R6.codec-pairing", f"{fn.split('::')[-1]}.reset-before-use", ok, b.loc(),
+               f"{reset}() on the per-thread state: per path {pc}, unconditional {uncond}, dominates every {work}() {before}, same state object {same}")
 
 
 def segmentation_rule(ctx, prog):
